@@ -54,6 +54,9 @@ M = {
  # factored bandit keeps the returned indices of the first record only
  'fbandit_record_stale_indeces': ('src/Factored/Bandit/Experience.cpp',
     'indeces_[i] = aId;', 'if (timesteps_ == 1) indeces_[i] = aId;'),
+ # the cooperative Thompson model's expected reward skips the last feature
+ 'coopTS_expected_reward_skips_last': ('src/Factored/MDP/CooperativeThompsonModel.cpp',
+    'double retval = 0.0;\n        for (size_t i = 0; i < S.size(); ++i) {', 'double retval = 0.0;\n        for (size_t i = 0; i + 1 < S.size() || i == 0; ++i) {'),
 }
 names = sys.argv[1:] or list(M)
 env = dict(os.environ, AITB_C07_LENIENT_SITES='1')
